@@ -754,6 +754,7 @@ class Sim:
         self.notes = {}          # probe/fault counters
         self.trace = None        # optional list of event strings
         self.weights = dict(self.W_DEFAULT)
+        self.msg_burst = False      # message links: several frames per read
         self.chunk_mode = "mixed"
         self.on_link = None
         self.on_end_made = None
@@ -976,6 +977,19 @@ class Sim:
                 obj.tokens -= k
             self.ev("deliver", obj.serial, k)
             net.deliver(obj, k)
+            if self.msg_burst and obj.link.mode == "message":
+                # one TCP read may carry several websocket frames: they are
+                # all dispatched before the reactor turns to anything else
+                n = 0
+                while obj.alive and not obj.read_paused and \
+                        not obj.read_stopped and not obj.stalled and \
+                        len(obj.inflight) and obj.link.up and n < 64 and \
+                        self.tape.choose(4, "burst") != 0:
+                    n += 1
+                    self.ev("deliver+", obj.serial)
+                    net.deliver(obj, 1)
+                if n:
+                    self.note("probe.frames_in_one_read")
         elif kind == "eof":
             self.ev("eof", obj.serial)
             obj.fin_inbound = False
